@@ -69,8 +69,10 @@ fn mutate(mut b: Vec<u8>, rng: &mut impl Rng) -> Vec<u8> {
 }
 
 fn dht_message(kind: usize, id: &str, src: &str, vlen: usize, rng: &mut impl Rng) -> DhtNetworkMessage {
+    // a small pool of keys: the store of the node under test stays small, so its own (legitimate,
+    // amortised) growth does not show up in the per-message allocation measurements
     let mut key = [0u8; 32];
-    rng.fill(&mut key);
+    key[0] = rng.gen_range(0..16);
     let payload = match kind % 7 {
         0 => DhtNetworkOperation::Put { key, value: vec![7u8; vlen] },
         1 => DhtNetworkOperation::Get { key },
@@ -169,9 +171,9 @@ pub fn drive(a: &Args) -> i32 {
                 }
             };
             let dec: Option<DhtNetworkMessage> = postcard::from_bytes(&bytes).ok();
-            let (is_put, put_len, put_key) = match &dec {
-                Some(DhtNetworkMessage { payload: DhtNetworkOperation::Put { key, value }, message_type: DhtMessageType::Request, .. }) => (true, value.len(), Some(*key)),
-                _ => (false, 0, None),
+            let (is_put, put_len, put_key, put_val) = match &dec {
+                Some(DhtNetworkMessage { payload: DhtNetworkOperation::Put { key, value }, message_type: DhtMessageType::Request, .. }) => (true, value.len(), Some(*key), value.clone()),
+                _ => (false, 0, None, vec![]),
             };
             let m2 = node.mgr.clone();
             let b2 = bytes.clone();
@@ -188,7 +190,8 @@ pub fn drive(a: &Args) -> i32 {
                 Ok(Err(_)) => (false, false, 0),
             };
             let stored = match put_key {
-                Some(k) => node.mgr.get_local(&k).await.ok().flatten().map(|v| v.len() as i64).unwrap_or(-1),
+                // "stored" = the node now holds exactly the bytes of this message under its key
+                Some(k) => node.mgr.get_local(&k).await.ok().flatten().filter(|v| *v == put_val).map(|v| v.len() as i64).unwrap_or(-1),
                 None => -1,
             };
             evs.push(json!({"ev":"DhtMsg","built":built,"len":bytes.len(),"decodes":dec.is_some(),"is_put":is_put,"put_len":put_len,
@@ -218,7 +221,8 @@ pub fn drive(a: &Args) -> i32 {
         }
         for i in 0..n {
             let mut key = [0u8; 32];
-            rng.fill(&mut key);
+            key[0] = rng.gen_range(0..16);
+            key[1] = 1;
             let count = [0usize, 1, 19, 20, 21, 64, 1000, usize::MAX][rng.gen_range(0..8)];
             let vlen = [0usize, 1, 511, 512, 513, 600, 5000][rng.gen_range(0..7)];
             let msg = match i % 3 {
@@ -234,7 +238,7 @@ pub fn drive(a: &Args) -> i32 {
             };
             let (kind, cnt, vl, skey) = match &w.message {
                 DhtMessage::FindNode { count, .. } => ("FindNode", (*count).min(1_000_000), 0, None),
-                DhtMessage::Store { key, value, .. } => ("Store", 0, value.len(), Some(key.clone())),
+                DhtMessage::Store { key, value, .. } => ("Store", 0, value.len(), Some((key.clone(), value.clone()))),
                 DhtMessage::FindValue { .. } => ("FindValue", 0, 0, None),
                 _ => ("Other", 0, 0, None),
             };
@@ -249,7 +253,7 @@ pub fn drive(a: &Args) -> i32 {
                 _ => (0, false),
             };
             let held = match skey {
-                Some(k) => eng.retrieve(&k).await.ok().flatten().is_some(),
+                Some((k, v)) => eng.retrieve(&k).await.ok().flatten().is_some_and(|held| held == v),
                 None => false,
             };
             t.ev(json!({"ev":"EngineReq","decodes":true,"panic":false,"kind":kind,"count":cnt,"nodes":nodes,"vlen":vl,"acked":acked,"held":held,"peak":peak}));
